@@ -370,7 +370,7 @@ std::pair<ebpps_sample<T, A>, size_t> ebpps_sample<T, A>::deserialize(const uint
 
   optional<T> partial_item;
   if (has_partial) {
-    optional<T> tmp; // space to deserialize
+    item_space<T> tmp; // space to deserialize
     ptr += sd.deserialize(ptr, end_ptr - ptr, &*tmp, 1);
     // serde did not throw so place item and clean up
     partial_item.emplace(*tmp);
@@ -407,7 +407,7 @@ ebpps_sample<T, A> ebpps_sample<T, A>::deserialize(std::istream& is, uint32_t k,
 
   optional<T> partial_item;
   if (has_partial) {
-    optional<T> tmp; // space to deserialize
+    item_space<T> tmp; // space to deserialize
     sd.deserialize(is, &*tmp, 1);
     // serde did not throw so place item and clean up
     partial_item.emplace(*tmp);
